@@ -9,5 +9,46 @@ PROPS = {
    explanation="VCs from the real AST of get_task_delay (time branch) + to_tz_aware inlined, over integer microseconds: the three clauses of the statement verbatim; all now/T, no bound.",
    assumptions=["datetime theory D1-D5 (specs/u_delay.py TRUSTED); int(timedelta.total_seconds()) exact for 0..61 s (range proved on the path)", "now within datetime's range"],
    not_decided=[]),
+ 'C01': dict(units=['u_callback', 'u_run_task', 'u_og'], design_ref='DESIGN.md 4 C01, A.2, A.3',
+   explanation="Owicki-Gries proof over the coroutine segments of the real prefetcher/runner/task_cb (conservation taken = enqueued = dequeued = callback tasks, message identity, nothing stranded at exit, quota) "
+               "+ sequential VCs on the real callback/run_task (skip paths do nothing and do not raise; exactly one awaited invocation otherwise). Unbounded in A, P, N, message count, timing.",
+   assumptions=["asyncio/anyio model of specs/u_og.py TRUSTED (cooperative scheduling, Semaphore/Queue/Task/wait/add_done_callback contracts)",
+                "broker contract: listen() yields each taken message once; a cancelled pending __anext__ takes no message",
+                "C01 precondition: pre_execute hooks, parse_params and dependency resolution do not raise (otherwise the message is not executed, by design)",
+                "CancelledError/StopAsyncIteration exits of prefetcher/runner (external cancellation, stream end) are not explored"],
+   not_decided=["behaviour of a broker that loses a message when its pending fetch is cancelled (outside taskiq)"]),
+ 'C02': dict(units=['u_callback'], design_ref='DESIGN.md 4 C02, A.2',
+   explanation="Ghost monitor on the real Receiver.callback: at every message.ack() event acks==0 and the configured point has been reached; at normal exit acks == 1 iff ackable. "
+               "The assertion sits at the event, so it holds for every trace prefix (crash points). All three ack types, sync/async ack, every outcome incl. backend failure.",
+   assumptions=["run_task contract (proved by u_run_task; used modularly)", "hooks/ack/backend are arbitrary user code that may raise any Exception", "raise_err=False (the worker's own call)"],
+   not_decided=["what the broker's ack callable does"]),
+ 'C03': dict(units=['u_og', 'u_callback', 'u_run_task'], design_ref='DESIGN.md 4 C03, A.3',
+   explanation="OG invariant: slots law sa = A - acquired + released-by-done-callbacks, hence live <= A and no leak after any history (done-callback fires for every way a callback task ends); "
+               "task_cb attached before the next suspension; limit 1 => one at a time in FIFO order; stuck-freedom obligation; frame obligations on callback/run_task; __init__ builds Semaphore(max_async_tasks).",
+   assumptions=["asyncio model (u_og TRUSTED): add_done_callback runs for every way a task ends"],
+   not_decided=["'keeps making progress' as a fairness/liveness claim beyond stuck-freedom"]),
+ 'C04': dict(units=['u_og'], design_ref='DESIGN.md 4 C04, A.3',
+   explanation="OG invariant implies [finished look-ahead] + queued + live <= A + P + 1 (the literal bound of the statement) for unbounded A, P, backlog, durations; __init__ builds Semaphore(max_prefetch); queue unbounded.",
+   assumptions=["asyncio model (u_og TRUSTED)"], not_decided=[]),
+ 'C05': dict(units=['u_og'], design_ref='DESIGN.md 4 C05, A.3',
+   explanation="OG invariant: after stop at most one further message; everything taken is enqueued before the sentinel; runner exits only via the sentinel after waiting for live callbacks or the timeout; "
+               "quota N; stuck-state obligations turn 'then returns' into first-order enabledness checks.",
+   assumptions=["asyncio model (u_og TRUSTED)"], not_decided=["'returns promptly' as a wall-clock latency bound (0.3 s polling)"]),
+ 'C06': dict(units=['u_run_task', 'u_callback'], design_ref='DESIGN.md 4 C06, A.2',
+   explanation="Ownership VCs on the real run_task: the initial cache handed to the dependency resolver is fresh, maps Context to Context(this message, this broker) and is not written afterwards; "
+               "the target is invoked with this message's args/kwargs; callback saves under the executed message's task id the result of this run_task.",
+   assumptions=["taskiq_dependencies keeps a reference to the initial cache and reads it at later suspension points (read from its source) => requires fresh(cache)"],
+   not_decided=["that taskiq_dependencies, given a private cache, resolves everything from it (external)"]),
+ 'C07': dict(units=['u_run_task', 'u_callback'], design_ref='DESIGN.md 4 C07, A.2',
+   explanation="run_task postcondition (is_err/return_value/error/labels from the awaited invocation's outcome, any BaseException, wait_for applied iff timeout label); callback: exactly one set_result with "
+               "(task_id, result) unless NoResultError; a backend Exception never escapes.",
+   assumptions=["frame-preserving hooks (a middleware may legitimately rewrite the result)", "timeout label None or float-convertible"], not_decided=["that the backend stores what it is given"]),
+ 'C10': dict(units=['u_callback', 'u_run_task'], design_ref='DESIGN.md 4 C10, A.2',
+   explanation="Worker side: loop invariants 'hooks with index < i fired iff overridden, none >= i' for pre_execute/post_execute/post_save/on_error on the real loops; order by monitor; sync and async hooks (token rule).",
+   assumptions=["hooks that raise are exempt from 'exactly once' for the hooks after them (hook_failed)"], not_decided=["send side (kiq) is decided by unit u_kiq (added when built)"]),
+ 'C12': dict(units=['u_run_task'], design_ref='DESIGN.md 4 C12, A.2',
+   explanation="Monitor on the real run_task: exactly one awaited dep_ctx.close per created context, after the invocation finished or resolution failed, before the result is built; exc_info passed iff found and propagate.",
+   assumptions=["taskiq_dependencies.close() finalises every opened dependency once and throws exc_info[1] iff not None (external)", "timeout label None or float-convertible"],
+   not_decided=["'in reverse order of opening': that order is produced inside taskiq_dependencies (external); not assumed"]),
 }
 NOT_APPLICABLE = {}
